@@ -297,6 +297,10 @@ func execCorrupt(w *World, st *Step) {
 		bad, what = structuredCorrupt(data, seed)
 		where = "field"
 	}
+	if bad == nil && kind == 7 && e == 5 {
+		bad, what = frozenStructured(data, seed)
+		where = "field"
+	}
 	if bad == nil {
 		if kind == 7 {
 			kind = int(seed % 7)
@@ -358,6 +362,56 @@ func execCorrupt(w *World, st *Step) {
 	w.setResult(st.S[0], dst, m, regions, "decoded-corrupt:"+rEntryNames[e])
 	w.B[st.S[0]].ZeroCopy = ri >= 0
 	w.B[st.S[0]].Frozen = e == 5
+}
+
+// frozenStructured breaks one field of a valid frozen stream (type code, count, key, header).
+func frozenStructured(data []byte, seed uint64) ([]byte, string) {
+	_, L, err := model.ParseFrozen(data)
+	if err != nil || L.N == 0 {
+		return nil, ""
+	}
+	r := NewRng(seed)
+	out := append([]byte(nil), data...)
+	i := r.Intn(L.N)
+	switch r.Intn(7) {
+	case 0:
+		out[L.Types[0]+i] = []byte{1, 2, 3}[r.Intn(3)]
+		return out, "frozen:typecode-swapped"
+	case 1:
+		out[L.Types[0]+i] = []byte{0, 4, 255}[r.Intn(3)]
+		return out, "frozen:typecode-illegal"
+	case 2:
+		out[L.Counts[0]+2*i] += byte(1 + r.Intn(3))
+		return out, "frozen:count+"
+	case 3:
+		out[L.Counts[0]+2*i], out[L.Counts[0]+2*i+1] = 0xFF, 0xFF
+		return out, "frozen:count-max"
+	case 4:
+		if L.N >= 2 {
+			j := r.Intn(L.N - 1)
+			a, b := L.Keys[0]+2*j, L.Keys[0]+2*j+2
+			out[a], out[a+1], out[b], out[b+1] = out[b], out[b+1], out[a], out[a+1]
+			return out, "frozen:keys-swapped"
+		}
+	case 5:
+		if L.N >= 2 {
+			j := r.Intn(L.N - 1)
+			a, b := L.Keys[0]+2*j, L.Keys[0]+2*j+2
+			out[b], out[b+1] = out[a], out[a+1]
+			return out, "frozen:key-duplicated"
+		}
+	default:
+		// header: chunk count off by one (cookie kept)
+		h := uint32(out[L.Hdr[0]]) | uint32(out[L.Hdr[0]+1])<<8 | uint32(out[L.Hdr[0]+2])<<16 | uint32(out[L.Hdr[0]+3])<<24
+		if r.Bool() {
+			h += 1 << 15
+		} else {
+			h -= 1 << 15
+		}
+		out[L.Hdr[0]], out[L.Hdr[0]+1], out[L.Hdr[0]+2], out[L.Hdr[0]+3] = byte(h), byte(h>>8), byte(h>>16), byte(h>>24)
+		return out, "frozen:header-count"
+	}
+	return nil, ""
 }
 
 func frozenRegionName(orig, bad []byte) string {
